@@ -17,8 +17,14 @@ func TestAlias(t *testing.T) {
 	d1.SetActor(actorOf(1))
 	d2 := document.New("k")
 	d2.SetActor(actorOf(2))
-	go func() { for range d1.Events() {} }()
-	go func() { for range d2.Events() {} }()
+	go func() {
+		for range d1.Events() {
+		}
+	}()
+	go func() {
+		for range d2.Events() {
+		}
+	}()
 	_ = d2.Update(func(r *json.Object, p *presence.Presence) error { r.SetInteger("b", 1); return nil })
 	_ = d1.Update(func(r *json.Object, p *presence.Presence) error { r.SetInteger("a", 1); return nil })
 	p2 := d2.CreateChangePack()
